@@ -27,7 +27,7 @@ thread_local! {
 pub fn install_panic_hook() {
     let default = std::panic::take_hook();
     std::panic::set_hook(Box::new(move |info| {
-        if !IN_CONTRACT.with(|c| c.get()) {
+        if !IN_CONTRACT.with(|c| c.get()) || std::env::var("VERIF_PANICS").is_ok() {
             default(info);
         }
     }));
@@ -452,6 +452,8 @@ impl World {
                 },
             );
         }
+        // the deployment block is over: "the previous block" is defined for every explored step
+        w.advance(1, 15);
         let ep = contract_prefix(w.engine.as_str());
         for k in ["tmp-swap", "sent-funds", "tmp-liquidator"] {
             let mut key = ep.clone();
